@@ -231,7 +231,7 @@ func run(c *core.Ctx) {
 	//    x every layout pair x 7 binary calls. The oracle sees all of them;
 	//    the model a deterministic 1-in-k selection (all of them in thorough).
 	u := []int{0, 1, 2, 3}
-	k := c.N(16, 1, 1)
+	k := c.N(27, 1, 1) // coprime to the 7 calls x 7 x 7 layouts: every (pairing, layouts, call) combination is selected
 	n := 0
 	for ma := 0; ma < 16; ma++ {
 		for mb := 0; mb < 16; mb++ {
@@ -241,8 +241,7 @@ func run(c *core.Ctx) {
 						for pb := 0; pb < profilesOf(ib); pb++ {
 							for _, op := range binops {
 								cs := pairCase(u, subset(u, ma), subset(u, mb), ia, ib, pa, pb, op)
-								// the selection walks through all residues so that every (op, layout) combination is hit
-								cs.Emit = (n+n/7+n/49)%k == 0
+								cs.Emit = n%k == 0
 								n++
 								exec(c, cs)
 							}
